@@ -3,7 +3,7 @@ from harness import check, replay
 from checks.c02 import judge_events
 
 CFGS = {
-    "quick": ["Markov_addmul", "Markov_logaddexp", "Markov_maxadd"],
+    "quick": ["Markov_addmul_q", "Markov_logaddexp_q", "Markov_maxadd_q"],
     "thorough": ["Markov_addmul", "Markov_logaddexp", "Markov_maxadd", "Markov_minadd", "Markov_maxmul"],
 }
 LAGS = {"quick": ["MarkovLag_quick"], "thorough": ["MarkovLag_addmul", "MarkovLag_logaddexp"]}
